@@ -218,6 +218,12 @@ func c18Facts(fc *facts) {
 // c18DbLevelsReplacedOnly  package dkv never calls AddTables/RemoveTables on db.sstables: the field is only replaced
 //                          (NewWithChangeSet result, the empty list of New, the checkpoint's list in Start).
 //
+// c18CommitsUnderDbMu      every `<db>.sstables = <db>.sstables.NewWithChangeSet(..)` of dkv/db.go (the flush commit and the
+//                          compaction commit; at least two) is preceded in its own statement list by `<db>.mu.Lock()` with no
+//                          Unlock in between and followed by `<db>.mu.Unlock()` with no Lock in between: the read-modify-write
+//                          of the level list is one critical section; currentSSTables reads the field under RLock with a
+//                          deferred RUnlock.
+//
 // Together: a LevelList value read by currentSSTables() is never changed afterwards (what `compactBegin` computing on
 // a snapshot needs) and at most one Compact call runs at a time (one pending change set).
 
@@ -569,6 +575,91 @@ func c18StructFacts(fc *facts) {
 			ok = false
 		}
 		fc.set("c18LevelListPersistent", 1, ok, "NewWithChangeSet works on slices.Clone(receiver.levels) only; Level.tablesAdded/tablesRemoved (value receivers) use Set.Added/Diff; Set.Added adds to receiver.clone(); Diff/clone never write to the receiver")
+	}
+
+	// --- c18CommitsUnderDbMu
+	{
+		f := parseFile("dkv/db.go")
+		commits, guarded := 0, 0
+		isMuCall := func(st ast.Stmt, root, method string) bool {
+			es, isE := st.(*ast.ExprStmt)
+			if !isE {
+				return false
+			}
+			c, isC := es.X.(*ast.CallExpr)
+			if !isC {
+				return false
+			}
+			p, sel := lastSel(c.Fun)
+			return sel == method && p == root+".mu"
+		}
+		ast.Inspect(f, func(x ast.Node) bool {
+			blk, isB := x.(*ast.BlockStmt)
+			if !isB {
+				return true
+			}
+			for i, st := range blk.List {
+				as, isAs := st.(*ast.AssignStmt)
+				if !isAs || len(as.Lhs) != 1 || len(as.Rhs) != 1 {
+					continue
+				}
+				lp, lsel := lastSel(as.Lhs[0])
+				if lsel != "sstables" || lp == "" {
+					continue
+				}
+				c, isC := as.Rhs[0].(*ast.CallExpr)
+				if !isC {
+					continue
+				}
+				rp, rsel := lastSel(c.Fun)
+				if rsel != "NewWithChangeSet" || rp != lp+".sstables" {
+					continue
+				}
+				commits++
+				locked := false
+				for j := i - 1; j >= 0; j-- {
+					if isMuCall(blk.List[j], lp, "Unlock") {
+						break
+					}
+					if isMuCall(blk.List[j], lp, "Lock") {
+						locked = true
+						break
+					}
+				}
+				unlocked := false
+				for k := i + 1; k < len(blk.List); k++ {
+					if isMuCall(blk.List[k], lp, "Lock") {
+						break
+					}
+					if isMuCall(blk.List[k], lp, "Unlock") {
+						unlocked = true
+						break
+					}
+				}
+				if locked && unlocked {
+					guarded++
+				}
+			}
+			return true
+		})
+		readOK := false
+		cur := findFuncOr(f, "DB", "currentSSTables")
+		if r := c18RecvName(cur); r != "" && len(cur.Body.List) == 3 {
+			first := isMuCall(cur.Body.List[0], r, "RLock")
+			second := false
+			if d, isD := cur.Body.List[1].(*ast.DeferStmt); isD {
+				p, sel := lastSel(d.Call.Fun)
+				second = sel == "RUnlock" && p == r+".mu"
+			}
+			third := false
+			if ret, isR := cur.Body.List[2].(*ast.ReturnStmt); isR && len(ret.Results) == 1 {
+				p, sel := lastSel(ret.Results[0])
+				third = p == r && sel == "sstables"
+			}
+			readOK = first && second && third
+		}
+		fc.set("c18CommitsUnderDbMu", 1, commits >= 2 && guarded == commits && readOK,
+			"dkv/db.go: every `db.sstables = db.sstables.NewWithChangeSet(..)` lies between db.mu.Lock() and db.mu.Unlock() of its own statement list (flush and compaction commit), currentSSTables reads under RLock")
 	}
 
 	// --- c18DbLevelsReplacedOnly
